@@ -228,6 +228,17 @@ pub fn gen_case(rng: &mut Rng) -> ImgCase {
         2 => rng.f64() as f32,
         _ => 1.0,
     };
+    // wide surfaces under a strongly minifying current transform with a large compensating translation in the
+    // source transform: the image coordinates stay small, the partial products in 16.16 do not
+    let (w, h, src_t, ctm) = if rng.chance(0.03) {
+        // (device pixel px sees image x = px * k + off: the span px * k passes 32768, every sum stays within +-30000)
+        let k = *rng.pick(&[64.0f32, 128.]);
+        let w2 = (rng.int(36000, 58000) as f32 / k) as i32;
+        let off = -((w2 as f32 * k) / 2.).round() + rng.int(-40, 40) as f32;
+        (w2, rng.int(1, 2) as i32, Transform::translation(off, rng.int(-3, 3) as f32), Transform::scale(1. / k, 1.))
+    } else {
+        (w, h, src_t, ctm)
+    };
     // a family of its own: the source transform cancels the current transform's linear part, so that
     // pixel -> image space is a pure translation although neither transform is one
     let (src_t, ctm) = if rng.chance(0.15) {
